@@ -14,7 +14,7 @@ Definition case_holds (c : case) : bool :=
   match c with
   | CSeq l cfg univ steps =>
       seq_holds l univ (match l with ObsStore => [] | ObsAll => map (fun _ => None) univ end)
-                (map (fun k => lookup k (g_init cfg)) univ) steps
+                (map (fun k => lookup k (g_init cfg)) univ) [] steps
   | CConc cfg deep univ items => conc_holds cfg univ items
   end.
 
@@ -27,20 +27,31 @@ Definition case_accept (c : case) : bool :=
   end.
 
 (* ------------------------------------------------------------------ whatever is accepted satisfies the monitor *)
-Theorem seq_sound l c univ : forall steps g, gok g -> seq_accept l c univ g steps = true ->
-  seq_holds l univ (snap_cache l c g univ) (snap_store c g univ) steps = true.
+(* every worker noted so far is the one the key is routed to *)
+Definition ws_ok (c : gcfg) (ws : list (Z * Z)) : Prop := forall k w, lookup k ws = Some w -> w = loc_of c k.
+
+Theorem seq_sound l c univ : forall steps g ws, gok g -> ws_ok c ws -> seq_accept l c univ g steps = true ->
+  seq_holds l univ (snap_cache l c g univ) (snap_store c g univ) ws steps = true.
 Proof.
-  induction steps as [|s rest IH]; intros g Hg Ha; [reflexivity|].
+  induction steps as [|s rest IH]; intros g ws Hg Hws Ha; [reflexivity|].
   cbn [seq_accept] in Ha. unfold model_step in Ha.
   destruct (do_op c g (st_op s) (st_faults s)) as [[g' evs] r] eqn:Ed.
   apply andb_prop in Ha as [Ha Hrest]. apply andb_prop in Ha as [Hmem Heq].
-  destruct (sobs_match_eq _ _ _ Heq) as (He & _ & Hca & Hst & Hres). cbn [ob_events ob_res ob_cache ob_store] in He, Hca, Hst, Hres.
+  destruct (sobs_match_eq _ _ _ Heq) as (He & Hwk & Hca & Hst & Hres). cbn [ob_events ob_res ob_worker ob_cache ob_store] in He, Hwk, Hca, Hst, Hres.
+  assert (Hwk' : forall a, ob_worker (st_obs s) = Some a -> a = loc_of c (key_of (st_op s))).
+  { intros a Ha'. rewrite Hwk in Ha'. unfold snap_worker in Ha'. destruct l; [discriminate|].
+    destruct (existsb is_cache_ev evs); inversion Ha'. reflexivity. }
   apply mem_In in Hmem.
   destruct (do_op_spec _ _ _ _ _ _ _ Hg Ed) as (B1 & B2 & B3 & B4 & B5 & B6 & B7 & B8).
-  cbn [seq_holds]. apply andb_true_intro. split; [|rewrite Hca, Hst; apply IH; assumption].
+  cbn [seq_holds]. apply andb_true_intro. split.
+  2:{ rewrite Hca, Hst. apply IH; try assumption. intros k0 w0. unfold note_worker.
+      destruct (ob_worker (st_obs s)) as [a|] eqn:Ea; [|apply Hws]. cbn [lookup].
+      destruct (key_of (st_op s) =? k0) eqn:Ek; [|apply Hws]. apply Z.eqb_eq in Ek. intros H. inversion H; subst. apply Hwk'. reflexivity. }
   unfold step_holds. rewrite He, Hca, Hst.
   set (k := key_of (st_op s)) in *.
   repeat (apply andb_true_intro; split).
+  - unfold worker_ok. destruct (ob_worker (st_obs s)) as [a|] eqn:Ea; [|reflexivity].
+    destruct (lookup k ws) as [b|] eqn:Eb; [|reflexivity]. rewrite (Hwk' a eq_refl), (Hws k b Eb). apply Z.eqb_refl.
   - apply forallb_project. apply (Forall_forallb _ _ _ (fun e H => proj2 (Z.eqb_eq _ _) H) B3).
   - apply forallb_forall. intros x Hx. destruct (x =? k) eqn:E; [reflexivity|]. apply Z.eqb_neq in E. cbn [orb].
     unfold snap_store. rewrite !at_key_map by exact Hx. rewrite (B2 x E). apply oz_eqb_refl.
@@ -70,7 +81,8 @@ Theorem case_sound : forall c, case_accept c = true -> case_holds c = true.
 Proof.
   intros [l cfg univ steps|cfg deep univ items]; cbn [case_accept case_holds]; intros Ha;
     [|eapply conc_sound; exact Ha].
-  pose proof (seq_sound l cfg univ steps (ginit cfg) (ginit_ok cfg) Ha) as H.
+  assert (Hnil : ws_ok cfg []) by (intros k w H; discriminate).
+  pose proof (seq_sound l cfg univ steps (ginit cfg) [] (ginit_ok cfg) Hnil Ha) as H.
   replace (snap_cache l cfg (ginit cfg) univ) with (match l with ObsStore => [] | ObsAll => map (fun _ : Z => @None (option Z)) univ end) in H
     by (destruct l; reflexivity).
   exact H.
